@@ -168,8 +168,10 @@ def pf_two_node(D, T=3, freq='h', unit='h', eff_s=0.75, eff_t=0.5, wacc=False, w
     return Shape(pf, tg, prices_for(D, ['p', 'q'], T))
 
 
-def mk_take(tg, k0, k1, value):
+def mk_take(tg, k0, k1, value, tz=None):
     s, e = window(tg, (k0, k1))
+    if tz is not None:          # the same instants written in another time zone (zone-aware dates)
+        s, e = pd.Timestamp(s).tz_convert(tz), pd.Timestamp(e).tz_convert(tz)
     return {'start': [s], 'end': [e], 'values': [value]}
 
 
@@ -195,7 +197,7 @@ def pf_multicommodity(D, T=3, freq='h', unit='h', factors=(1.0, 0.5), take=None,
     return Shape(pf, tg, prices_for(D, ['p', 'q', 'r'], T))
 
 
-def pf_contract_take(D, T=4, freq='h', unit='h', take=(1, 3), win=None, extra=True):
+def pf_contract_take(D, T=4, freq='h', unit='h', take=(1, 3), win=None, extra=True, take_tz=None):
     eao = lift.import_eao()
     tg = grid(T, freq, unit)
     (nA,) = nodes('A')
@@ -203,8 +205,8 @@ def pf_contract_take(D, T=4, freq='h', unit='h', take=(1, 3), win=None, extra=Tr
     lo = D('ct_min', hi=0); hi = D('ct_max', lo=0)
     ct = eao.assets.Contract(name='ct', nodes=nA, price='r', min_cap=lo, max_cap=hi,
                              extra_costs=D('ct_ec', lo=0) if extra else 0.,
-                             max_take=mk_take(tg, take[0], take[1], D('ct_maxtake', lo=0)),
-                             min_take=mk_take(tg, take[0], take[1], D('ct_mintake', hi=0)), start=s, end=e)
+                             max_take=mk_take(tg, take[0], take[1], D('ct_maxtake', lo=0), tz=take_tz),
+                             min_take=mk_take(tg, take[0], take[1], D('ct_mintake', hi=0), tz=take_tz), start=s, end=e)
     m = mk_market(D, 'mkt', nA, T, 'p')
     pf = eao.portfolio.Portfolio([ct, m])
     return Shape(pf, tg, prices_for(D, ['p', 'r'], T))
